@@ -16,6 +16,7 @@ DEFAULT_W = dict(
     invoke=0.30,
     obj_param=0.45,      # a parameter is a dig.In object
     deeptree=0.1,        # scope trees that grow deep, with siblings below depth 2
+    shadow=0.03,         # one key provided in a scope and in an ancestor, decorated on the path, consumed below
     vizgroup=0.0,        # a value group with failing members, consumed and drawn with that Invoke's error
     loc=0.03,            # Provide carries dig.LocationForPC
     embed=0.04,          # an object embeds further structs (plain ones, or dig.In / dig.Out indirectly)
@@ -304,7 +305,7 @@ class Gen:
     # ---- malformed stream
     def malformed_fn(self):
         r = self.r
-        c = r.randrange(0, 30)
+        c = r.randrange(0, 33)
         ty = r.choice(PT)
         if c == 0:
             return self.new_fn([], [], nonfunc=r.choice(["nil", "int", "ptr", "struct", "nilfunc", "nilfunc1"]))
@@ -359,6 +360,13 @@ class Gen:
             return self.new_fn([self.st([self.in_field(tg), self.field("A", u(ty)), self.field("hidden", u(r.choice(PT)), x=False)])], [u(r.choice(PT))])
         if c == 23:  # unexported field in dig.Out
             return self.new_fn([], [self.st([self.out_field(), self.field("A", u(ty)), self.field("hidden", u(r.choice(PT)), x=False)])])
+        if c == 30:  # an array-typed dependency nobody provides (missing-type suggestions are computed for it)
+            return self.new_fn([u(r.choice([80, 81, 81]))] + ([u(ty)] if r.random() < 0.5 else []), [u(r.choice(PT))])
+        if c == 31:  # ... as an optional / named field of a parameter object
+            tg = r.choice([{}, {"optional": "true"}, {"name": "n1"}])
+            return self.new_fn([self.st([self.in_field(), self.field("A", u(r.choice([80, 81])), tg)])], [u(r.choice(PT))])
+        if c == 32:  # an array-typed result (never Huge: fmt would print 2^61 elements in Scope.String)
+            return self.new_fn([], [u(80)] + ([u(0)] if r.random() < 0.5 else []))
         if c == 24:  # a plain struct (no In/Out) as parameter and as result
             plain = self.st([self.field("A", u(ty)), self.field("B", u(r.choice(PT)))])
             return self.new_fn([plain] if r.random() < 0.5 else [], [plain])
@@ -783,6 +791,68 @@ class Gen:
         for sc in r.sample(chain, min(len(chain), 2)):
             self.ops.append({"op": "invoke", "scope": sc, "fn": cons, "info": False})
 
+    # ---- shadowing: one key provided in a scope and in an ancestor, decorated somewhere on the path, consumed below
+    def op_shadow_web(self):
+        """the same key K provided in a scope L and in an ancestor A of L (the nearer one possibly unbuildable: a
+        dependency of its constructor is missing), possibly decorated in an ancestor, possibly cached through a
+        'side door' (the nearer provider also returns another type that is demanded first); consumed from L and below
+        as optional / required, positional / object field"""
+        r = self.r
+        if self.nscopes < 2:
+            par = self.pick_parent()
+            self.ops.append({"op": "scope", "parent": par}); self.parents.append(par); self.nscopes += 1
+        low = r.choice([s for s in range(self.nscopes) if self.parents[s] is not None])
+        path = self.anc(low)              # low ... root
+        high = r.choice(path[1:])
+        (kt, kn) = self.fresh_key()
+        # ancestor provider, with a little dependency chain of its own
+        dep = None
+        if r.random() < 0.6:
+            dep = self.fresh_key()
+            self.plain_provide(high, [], dep[0], dep[1])
+        self.plain_provide(high, [self.single_in(dep[0], dep[1])] if dep else [], kt, kn)
+        # decorator of K somewhere at or above `high`..`low`
+        if r.random() < 0.5:
+            dsc = r.choice(path)
+            douts = [u(kt)] if not kn else [self.st([self.out_field(), self.field("V", u(kt), {"name": kn})])]
+            df = self.new_fn([self.single_in(kt, kn)] if r.random() < 0.8 else [], douts)
+            self.ops.append({"op": "decorate", "scope": dsc, "fn": df, "cb": self.p("cb"), "info": False})
+        # nearer provider: buildable or not, maybe with a second result (the side door)
+        side = self.fresh_key() if r.random() < 0.5 else None
+        lins = []
+        if r.random() < 0.5:
+            (mt, mn) = self.fresh_key()
+            lins = [self.single_in(mt, mn)]      # nothing provides it: the nearer constructor is unbuildable
+        louts = [u(kt)] if not kn else [self.st([self.out_field(), self.field("R0", u(kt), {"name": kn})])]
+        if side:
+            louts.append(u(side[0]) if not side[1] else self.st([self.out_field(), self.field("R1", u(side[0]), {"name": side[1]})]))
+        lf = self.new_fn(lins, louts)
+        self.ops.append({"op": "provide", "scope": low, "fn": lf, "name": "", "group": "", "as": [], "export": False,
+                         "cb": self.p("cb"), "info": False, "opts": []})
+        self.provided.append((low, kt, kn))
+        if not lins:
+            self.resolvable.append((low, kt, kn))
+        below = [s for s in range(self.nscopes) if low in self.anc(s)]
+        if side and r.random() < 0.7:
+            sf = self.new_fn([self.single_in(side[0], side[1])], [])
+            self.ops.append({"op": "invoke", "scope": r.choice(below), "fn": sf, "info": False})
+        for _ in range(r.choice([1, 2, 3])):
+            opt = r.random() < 0.5
+            form = r.choice(["obj", "obj", "pos"]) if not (kn or opt) else "obj"
+            if form == "pos":
+                ins = [u(kt)]
+            else:
+                tags = {}
+                if kn:
+                    tags["name"] = kn
+                if opt:
+                    tags["optional"] = "true"
+                ins = [self.st([self.in_field(), self.field("F1", u(kt), tags)])]
+            cf = self.new_fn(ins, [])
+            csc = r.choice(below + [low])
+            self.invokers.append((cf, csc))
+            self.ops.append({"op": "invoke", "scope": csc, "fn": cf, "info": False})
+
     # ---- a value group some of whose members fail, consumed and drawn with the error of that Invoke
     def op_failed_group_viz(self):
         r = self.r
@@ -894,6 +964,9 @@ class Gen:
                 continue
             if r.random() < self.w["vizgroup"]:
                 self.op_failed_group_viz()
+                continue
+            if r.random() < self.w["shadow"]:
+                self.op_shadow_web()
                 continue
             if r.random() < self.w["deepcycle"]:
                 self.op_deep_cycle()
